@@ -1,6 +1,6 @@
 import DmrVerif.Driver.Loop
 import DmrVerif.Driver.Rs
-import DmrVerif.Driver.Transl
+import DmrVerif.Driver.TranslRs
 
 /-! model driver for property C11 (`t.rs.*`: the definitions translated from the source, `Gen/TranslRs.lean`) -/
 
